@@ -213,6 +213,25 @@ theorem bvh_collider_wf (flatten : Bool) (s : Shape (Leaf3 K)) (hl : ∀ l ∈ s
   have hi := items_shapeToForest (boxOf := fun l : Leaf3 K => l.box) (union := Box3.union) flatten s
   exact ⟨hi, sound_shapeToForest boxAlg3 flatten s, fun l h => hl l (by rw [hi] at h; exact h)⟩
 
+/-- **`BVHToCollider` / `BVHToObject` on a BVH whose branches have ANY number of children** (`BVH` is
+documented as "a leaf, or a branch with two or more children"; `t` is the BVH as an ordered forest
+without bounds, `Forest _ Unit`): the resulting hierarchy contains every leaf object of the BVH
+exactly once, in order — the objects below a third, fourth, … child of a branch included — and is well
+formed, so every query theorem of §4 applies to it.  `flatten = true`: model3d `NewJoinedCollider`;
+`false`: model2d and render3d `FilteredObject{JoinedObject}`. -/
+theorem nary_bvh_collider_wf (flatten : Bool) (t : Forest (Leaf3 K) Unit)
+    (hl : ∀ l ∈ t.items, LeafSound3 l) :
+    (bvhJoin flatten (·.box) Box3.union t).items = t.items ∧
+      WF3 (bvhJoin flatten (·.box) Box3.union t) := by
+  have hi := items_bvhJoin (boxOf := fun l : Leaf3 K => l.box) (union := Box3.union) flatten t
+  exact ⟨hi, sound_bvhJoin boxAlg3 flatten t, fun l h => hl l (by rw [hi] at h; exact h)⟩
+
+theorem nary_bvh_collider_wf2 (t : Forest (Leaf2 K) Unit) (hl : ∀ l ∈ t.items, LeafSound2 l) :
+    (bvhJoin false (·.box) Box2.union t).items = t.items ∧
+      WF2 (bvhJoin false (·.box) Box2.union t) := by
+  have hi := items_bvhJoin (boxOf := fun l : Leaf2 K => l.box) (union := Box2.union) false t
+  exact ⟨hi, sound_bvhJoin boxAlg2 false t, fun l h => hl l (by rw [hi] at h; exact h)⟩
+
 /-! ## 4. Joined colliders answer as the linear scan over their leaves -/
 
 /-- **`JoinedCollider.RayCollisions`**: the collisions reported by the hierarchy are the
@@ -510,6 +529,35 @@ theorem kd_sphere_iff (t : KD P) (h : KD.Inv coord t) (p : P) (r2 : K) :
   rw [KD.sphere_eq_any coord sq hplane p r2 t h, List.any_eq_true]
   simp only [decide_eq_true_eq]
 
+include hplane in
+/-- **The points returned by `KNN(k, p)` are stored points, each with its own squared distance, none more often
+than it is stored**: as (distance, point) pairs the answer is a sub-multiset of `(sq p c, c)` over the stored
+points `c` (together with `kd_knn_eq_k_smallest`: the answer is a selection of `k` nearest stored points — with
+duplicates in the cloud a point can be returned as often as it occurs, never more). -/
+theorem kd_knn_points_stored (t : KD P) (h : KD.Inv coord t) (k : Nat) (p : P) :
+    (t.KNN coord sq k p).Subperm (t.slice.map fun c => (sq p c, c)) := by
+  unfold KD.KNN
+  by_cases hk : k = 0
+  · simp [hk]
+  · simp only [hk, if_false]
+    rw [KD.knn_eq_scan coord sq hplane k p t [] h]
+    have := scanKNN_subperm sq k p (KD.visitOrder coord p t) []
+    simp only [List.nil_append] at this
+    exact this.trans ((KD.visitOrder_perm coord p t).map _).subperm
+
+include hplane in
+/-- **A table of k-nearest answers equals the table of brute-force answers**: the queries `(k, p)` are issued
+one after the other against the same tree and all answers are read afterwards (`nbrs[i] = tree.KNN(k, pts[i])`,
+a k-NN graph).  Entry `i` is the list of the `kᵢ` smallest squared distances from `pᵢ` — whatever queries were
+issued before or after it: an answer is a value and is not affected by later queries on the tree. -/
+theorem kd_knn_table_eq_scan (t : KD P) (h : KD.Inv coord t) (qs : List (Nat × P)) :
+    (t.knnTable coord sq qs).map (fun r => r.map (·.1)) =
+      qs.map fun q => ((t.slice.map (sq q.2)).insertionSort (· ≤ ·)).take q.1 := by
+  simp only [KD.knnTable, List.map_map]
+  apply List.map_congr_left
+  intro q _
+  exact kd_knn_eq_k_smallest coord sq hplane t h q.1 q.2
+
 end KDTree
 
 /-- **`Slice()` of a freshly built tree is a permutation of the input** (`coordtree_slice_perm`). -/
@@ -569,6 +617,31 @@ theorem bvh_object_cast_eq_min (s : Shape (Leaf3 K)) (hl : ∀ l ∈ s.leaves, L
   rw [hi] at this
   exact this
 
+/-- **`BVHToObject(bvh).Cast` for branches of any width = the closest hit among ALL objects of the
+BVH** (`t`: the BVH as an ordered forest, any number of children per branch): `none` iff no object
+is hit, otherwise an object's own hit with minimal ray parameter — an object stored under the third
+or a later child of a branch is found like any other. -/
+theorem nary_bvh_object_cast_eq_min (t : Forest (Leaf3 K) Unit) (hl : ∀ l ∈ t.items, LeafSound3 l)
+    (o d : V3 K) :
+    let f := bvhJoin false (·.box) Box3.union t
+    joinedFirst3 o d f = t.items.foldl (fun st l => Forest.merge closer st (l.first o d)) none ∧
+    (joinedFirst3 o d f = none ↔ ∀ l ∈ t.items, l.first o d = none) ∧
+    (∀ m, joinedFirst3 o d f = some m → (∃ l ∈ t.items, l.first o d = some m) ∧
+      ∀ l ∈ t.items, ∀ h', l.first o d = some h' → m.scale ≤ h'.scale) := by
+  intro f
+  obtain ⟨hi, hwf⟩ := nary_bvh_collider_wf (K := K) false t hl
+  have := joined_first_eq_min o d f hwf
+  rw [hi] at this
+  exact this
+
+/-- **`BVHToCollider(bvh)` for branches of any width (model3d, with flattening): ray collisions are the
+concatenation of the collisions of ALL triangles of the BVH.** -/
+theorem nary_bvh_collider_ray (t : Forest (Leaf3 K) Unit) (hl : ∀ l ∈ t.items, LeafSound3 l)
+    (o d : V3 K) :
+    joinedRay3 o d (bvhJoin true (·.box) Box3.union t) = t.items.flatMap (fun l => l.ray o d) := by
+  obtain ⟨hi, hwf⟩ := nary_bvh_collider_wf (K := K) true t hl
+  rw [(joined_ray_eq_concat o d _ hwf).1, hi]
+
 /-! ## Non-vacuity -/
 
 /-- A concrete sound leaf over ℚ: the unit cube, hit by a ray at parameter 1 exactly when the
@@ -612,6 +685,24 @@ example :
   obtain ⟨hi, hwf⟩ := grouped_collider_wf (K := Rat) true _ hs
   refine ⟨hwf, ?_⟩
   rw [(joined_ray_eq_concat _ _ f hwf).1, hi]
+  decide +kernel
+
+/-- A branch with THREE children (`Branch: {a, b, c}`): the hierarchy built by `BVHToObject` /
+`BVHToCollider` is well formed, keeps all three objects, and a ray that only meets the object under
+the third child is reported. -/
+example :
+    let t : Forest (Leaf3 Rat) Unit :=
+      .node () (.leaf (cubeLeaf 0 0 1) (.leaf (cubeLeaf 1 5 6) (.leaf (cubeLeaf 2 9 10) .nil))) .nil
+    let f := bvhJoin true (·.box) Box3.union t
+    WF3 f ∧ f.items.length = 3 ∧ joinedRay3 (⟨9, 9, 9⟩ : V3 Rat) ⟨1/2, 1/2, 1/2⟩ f = [⟨1, 2⟩] := by
+  intro t f
+  have hs : ∀ l ∈ t.items, LeafSound3 l := by
+    intro l hl
+    simp only [t, Forest.items, List.mem_cons, List.not_mem_nil, or_false, List.append_nil] at hl
+    rcases hl with rfl | rfl | rfl <;> exact cubeLeaf_sound _ _ _
+  obtain ⟨hi, hwf⟩ := nary_bvh_collider_wf (K := Rat) true t hs
+  refine ⟨hwf, by rw [hi]; rfl, ?_⟩
+  rw [nary_bvh_collider_ray t hs]
   decide +kernel
 
 /-- The k-d tree invariant is satisfiable with duplicates and equal split coordinates, and the
